@@ -96,6 +96,8 @@ class Gen:
                 f"{x} = {self.coeff()}*{x} + {d} {{{self.prob()}}} {x}"
         if k < 0.45 and fins:
             f = r.choice(fins)
+            if r.random() < 0.25:
+                return f"{x} = {f}*{x} + {r.choice(['1', '0', '-1', f])}"   # finite variable times the variable itself (still linear in x)
             return f"{x} = {x} + {self.coeff()}*{f}" + (f"*{r.choice(fins)}" if r.random() < 0.3 else "")
         if k < 0.6 and lower:
             y = r.choice(lower)
